@@ -239,7 +239,70 @@ ASSUMPTIONS = [
     "exp uninterpreted with axioms",
 ]
 
+
+# ------------------------------------------------------------------------------------------------------------------------
+# the event times a delay-adjusted rule reads are those of ITS cell: Observable.add_monitor pools two cells' monitors only
+# when name, tags AND the layer-relative target agree.  The real Observable runs on a stub layer whose realignment maps a
+# cell-relative path to the layer-relative one (two cells of one layer: own connections, one shared neuron group).
+PL = "inferno/observe/pooling.py"
+
+
+@contract("C18", "Observable.add_monitor[pooling key]", [(PL, "Observable.add_monitor"), (PL, "Observable.realign_attribute"), (PL, "Observable.__init__")], min_obligations=6)
+def pooling_key(c):
+    from pyvc import repo
+    from pyvc.interp import Obj
+
+    it = c.interp
+    OB = it.classv(repo.load_module(PL).classes["Observable"])
+
+    def realign(it_, cell, attr):
+        if attr.startswith("neuron."):
+            return "neurons_.n." + attr[len("neuron."):]
+        return f"connections_.{cell}." + attr[len("connection."):]
+
+    basis = Obj(None, "layer")
+    basis.fields["realign"] = Model(realign, "layer._realign_attribute")
+    a = it.instantiate(OB, [basis, "realign", ("ca",), None], {})
+    b = it.instantiate(OB, [basis, "realign", ("cb",), None], {})
+    # Observable.local_remap is abstract (a Cell checks and forwards the path): the stub forwards the path unchanged
+    for o in (a, b):
+        o.fields["local_remap"] = Model(lambda it_, attr: ((attr,), {}), "local_remap(identity)")
+    built = []
+
+    def ctor(it_, attr, module):
+        m = Obj(None, f"monitor[{len(built)}]")
+        built.append((m, attr, module))
+        return m
+
+    ctor_m = Model(ctor, "monitor constructor")
+    mons = {"a": {}, "b": {}}
+    pool = [(a, mons["a"]), (b, mons["b"])]
+    tags = c.choice("tags", [dict(tc=1.0), {}])
+
+    def add(obs, key, name, attr, **tg):
+        m = c.call(c.getattr(obs, "add_monitor"), name, attr, ctor_m, pool, **tg)
+        mons[key][name] = m
+        return m
+
+    pre_a = add(a, "a", "spike_pre", "connection.synapse.spike", **tags)
+    c.ensure("monitor_built_on_the_layer_relative_target", z3.BoolVal(len(built) == 1 and built[0][0] is pre_a and built[0][1] == "connections_.ca.synapse.spike" and built[0][2] is basis))
+    pre_b = add(b, "b", "spike_pre", "connection.synapse.spike", **tags)
+    c.ensure("cells_with_different_connections_are_never_pooled", z3.BoolVal(pre_b is not pre_a and len(built) == 2 and built[1][1] == "connections_.cb.synapse.spike"))
+    post_a = add(a, "a", "spike_post", "neuron.spike", **tags)
+    post_b = add(b, "b", "spike_post", "neuron.spike", **tags)
+    c.ensure("cells_sharing_the_neuron_group_pool_its_monitor", z3.BoolVal(post_b is post_a and len(built) == 3 and built[2][1] == "neurons_.n.spike"))
+    other = add(b, "b", "spike_post", "neuron.spike", tc=2.0)
+    c.ensure("different_tags_are_never_pooled", z3.BoolVal(other is not post_a and len(built) == 4))
+    again = add(a, "a", "spike_pre", "connection.synapse.spike", **tags)
+    c.ensure("a_cell_finds_its_own_monitor_again", z3.BoolVal(again is pre_a and len(built) == 4))
+    c.canary("canary_everything_pooled", z3.BoolVal(pre_b is pre_a))
+
+
 MUTANTS = [
+    dict(file="inferno/observe/pooling.py", func="Observable.add_monitor", contracts=["Observable.add_monitor[pooling key]"], name="seed C18h: the pooling key is built from the cell-relative path (cells of one layer alias each other's connection monitors)",
+         edits=[dict(func="Observable.add_monitor", old="        attr = self.realign_attribute(attr)\n", new="        target = self.realign_attribute(attr)\n"),
+                dict(func="Observable.add_monitor", old="        if not pool:\n            monitor = constructor(attr, self.__basis())", new="        if not pool:\n            monitor = constructor(target, self.__basis())"),
+                dict(func="Observable.add_monitor", old="        else:\n            monitor = constructor(attr, self.__basis())\n            monitor._tags = tags", new="        else:\n            monitor = constructor(target, self.__basis())\n            monitor._tags = tags")]),
     dict(file=KS, func="KernelSTDP.forward", old="                    | {k: v for k, v in state.kernel_pre_tensor_kwargs.named_buffers()}", new="                    | {k: v for k, v in state.kernel_post_tensor_kwargs.named_buffers()}", contracts=["KernelSTDP.forward"], name="seed C18g: tensor-valued hyper-parameters of the presynaptic kernel taken from the postsynaptic side"),
     dict(file=D3, func="DelayAdjustedMSTDP.forward", old="                    state.batchreduce(dneg, 0) if dneg.numel() else None,", new="                    state.batchreduce(dneg, 0) if dpos.numel() else None,", contracts=["DelayAdjustedMSTDP.forward[tensor_signal]"], name="tensor reward: depressing part guarded by the emptiness of the potentiating group (seed C09e transplanted)"),
     dict(file=D3, func="DelayAdjustedMSTDP.forward", old="                    case (True, False):  # hebbian\n                        dpos = torch.cat((dpost_reg, dpre_inv), 0)\n                        dneg = torch.cat((dpost_inv, dpre_reg), 0)", new="                    case (True, False):  # hebbian\n                        dpos = torch.cat((dpost_reg, dpre_reg), 0)\n                        dneg = torch.cat((dpost_inv, dpre_inv), 0)", contracts=["DelayAdjustedMSTDP.forward[tensor_signal]"], name="tensor reward: hebbian mode routed like the potentiative one"),
